@@ -590,8 +590,8 @@ def sig_stale_group_result(w):
     delayed creator: when X's get_status runs before the group exists (parallel runners look ahead; the serial runner
     only when X is defined first), result_dep keeps the placeholder task and computes/saves `_result:<group>` = null.
     Recognised: every difference is confined to such consumers X and is either (a) a `_result:<group>` entry that is
-    null on the parallel side, or (b) X re-executed by the parallel run where the serial run found it up-to-date
-    (the saved `_result:<group>` can never match) together with the data of that execution."""
+    null on one side (the side whose get_status(X) ran before the group existed), or (b) X re-executed by one run where
+    the other found it up-to-date (the stale `_result:<group>` cannot match) together with the data of that execution."""
     case = w.get('case') or {}
     if case.get('fam') != 'B' or not w.get('diff'):
         return False
@@ -605,7 +605,7 @@ def sig_stale_group_result(w):
     reexec = set()
     for d in w['diff']:
         if d[0] == 'reports':
-            if d[1] not in consumers or d[2] != 'skip_uptodate' or d[3] != 'success':
+            if d[1] not in consumers or sorted([str(d[2]), str(d[3])]) != ['skip_uptodate', 'success']:
                 return False
             reexec.add(d[1])
             reexec.add(names[int(d[1])] if str(d[1]).isdigit() and int(d[1]) < len(names) else d[1])
@@ -616,10 +616,10 @@ def sig_stale_group_result(w):
             return False
         if d[0] == 'data' and d[1] in reexec:
             continue
-        for path, _a, b in d[4]:
+        for path, a, b in d[4]:
             if len(path) < 2 or path[-2] not in ('values', '_values_:') or not str(path[-1]).startswith('_result:'):
                 return False
-            if str(path[-1])[len('_result:'):] not in dgroups or b != 'null':
+            if str(path[-1])[len('_result:'):] not in dgroups or 'null' not in (a, b):
                 return False
     return True
 
